@@ -1,5 +1,6 @@
 import GqlVerif.Props.C12
 import GqlVerif.Proofs.C12Items
+import GqlVerif.Proofs.C12FrontEnds
 open GqlVerif.C12
 #print axioms dfs_sound
 #print axioms dfs_complete
@@ -23,3 +24,19 @@ open GqlVerif.C12
 #print axioms GqlVerif.C12I.distinct_names_needed
 #print axioms GqlVerif.C12I.closure_needed
 #print axioms GqlVerif.C12I.fragment_named_String_cyclic
+-- InputsWf and MentionsFaithful from the front-ends: hypotheses about the schema document only (Proofs/C12FrontEnds.lean)
+#print axioms GqlVerif.C12FE.fromSdl_facts
+#print axioms GqlVerif.C12FE.fromSdl_inputsWf
+#print axioms GqlVerif.C12FE.fromSdl_inputsWf_iff
+#print axioms GqlVerif.C12FE.fromIntro_inputsWf
+#print axioms GqlVerif.C12FE.fromIntro_inputsWf_iff
+#print axioms GqlVerif.C12FE.fromJson_inputsWf
+#print axioms GqlVerif.C12FE.inputsWf_toSchema
+#print axioms GqlVerif.C12FE.mentionsFaithful_of_noCollision
+#print axioms GqlVerif.C12FE.input_items_acyclic_of_sdl
+#print axioms GqlVerif.C12FE.module_input_items_acyclic_of_sdl
+#print axioms GqlVerif.C12FE.input_items_acyclic_of_intro
+#print axioms GqlVerif.C12FE.input_items_acyclic_of_json
+#print axioms GqlVerif.C12FE.dup_input_not_wf
+#print axioms GqlVerif.C12FE.dup_input_intro_not_wf
+#print axioms GqlVerif.C12FE.kw_collision
